@@ -163,13 +163,8 @@ def run(ctx):
             continue
         cfg = cfg_of(fn)
         du = du_of(fn)
-        opt_edges = []
-        for sb in cfg.live_blocks():
-            st = cfg.blocks[sb]["term"]
-            if st["k"] == "switch" and _method_eq(du.val_operand(st["discr"])) == "OPTIONS":
-                for val, tb in st["targets"]:
-                    if val == 0:
-                        opt_edges.append((sb, st["otherwise"]))
+        from .c05 import method_edges
+        opt_edges, _ = method_edges(cfg, du, "OPTIONS")
         for bid in cfg.live_blocks():
             for s in cfg.blocks[bid]["stmts"]:
                 if s["k"] != "assign":
